@@ -148,6 +148,8 @@ def check_function(facts, fn, res, rule, nbparticles_field="nbParticles"):
             tbf.link_parents(lam)
             for x in walk(lam):
                 if x.get("k") == "DeclRefExpr" and x.get("did") in ptr_params and id(x) not in in_copy:
+                    if any(a.get("k") in ("CStyleCastExpr", "CXXStaticCastExpr", "CXXFunctionalCastExpr") and a.get("cast") == "ToVoid" for a in tbf.ancestors(x)):
+                        continue      # `(void)x;` silences an unused-parameter warning, nothing is moved
                     call = None
                     for a in tbf.ancestors(x):
                         if a.get("k") in ("CallExpr", "CXXMemberCallExpr"):
